@@ -1101,7 +1101,7 @@ func TestVerifC36(t *testing.T) {
 	vfC36PartE(t, r, n)
 
 	// ---- F: the template functions called directly (zz_verif_c36funcs_test.go)
-	vfC36PartF(vfNewRand(r.U64()), n)
+	vfC36PartF(vfNewRand(r.U64()), 2*n)
 
 	// ---- D: through the public builder API: a document whose SubRepositoryPath is accepted but is not a prefix of its name
 	for _, c := range [][2]string{{"a", "a/b/c"}, {"x/y.go", "x/y.go/z/w"}} {
@@ -1121,7 +1121,10 @@ func TestVerifC36(t *testing.T) {
 		}
 		_, mux, _ := vfC36Server(vfC36Multi{[]zoekt.Searcher{s}}, false)
 		res := vfC36Get(mux, "/search?q=water")
-		if res.panicked != "" || res.status != 200 {
+		if res.panicked == "" && res.status != 200 && bytes.Contains(res.body, []byte("template:")) {
+			vfOracleFail("render-error:D", fmt.Sprintf("status %d, template execution failed: %.300s", res.status, res.body),
+				map[string]any{"name": c[0], "subRepositoryPath": c[1], "request": "/search?q=water"})
+		} else if res.panicked != "" || res.status != 200 {
 			vfOracleFail("format-panic:subrepo-path-longer-than-name",
 				fmt.Sprintf("results page fails for a document accepted by ShardBuilder.Add (Name %q, SubRepositoryPath %q): status %d panic %q", c[0], c[1], res.status, res.panicked),
 				map[string]any{"name": c[0], "subRepositoryPath": c[1], "request": "/search?q=water"})
